@@ -22,7 +22,7 @@ def base_for(rng, n):
 
 
 class Prop(BaseProp):
-    coq_targets = ['ND/Proofs/C09_proofs.vo', 'ND/Proofs/C09_faa.vo', 'ND/Proofs/C09_powd.vo']
+    coq_targets = ['ND/Proofs/C09_proofs.vo', 'ND/Proofs/C09_faa.vo', 'ND/Proofs/C09_powd.vo', 'ND/Proofs/C09_agree.vo', 'ND/Proofs/C09_three.vo']
     n_quick, n_thorough = 600, 12000
 
     def cases(self, rng, n):
